@@ -50,6 +50,9 @@ type recBackend struct {
 	conf *logical.BackendConfig
 }
 
+// filter template of the world that maps listed keys onto the root-protected path family
+const c03RootFilterPrefix = "m/rootonly/"
+
 func recFactory(ctx context.Context, conf *logical.BackendConfig) (logical.Backend, error) {
 	return &recBackend{conf: conf}, nil
 }
@@ -450,8 +453,19 @@ func (d *driver) run(tokenNS string, stanzas []ref.Stanza, onlyView *view, onlyP
 							if strings.HasSuffix(key, "/") {
 								kop = "list"
 							}
-							ke, _, _, _ := model.Decide(abs+key, kop == "list")
-							if ok, _, _, _ := ke.Permits(ref.OpsNamed(kop)[0], map[string]interface{}{}, -1); ok {
+							// the path the key is judged on: the template of the deciding stanza
+							kpath := abs + key
+							if strings.HasPrefix(e.Filters[0], c03RootFilterPrefix) {
+								kpath = strings.TrimSuffix(abs, p) + "m/rootonly/" + key
+							}
+							ke, _, _, _ := model.Decide(kpath, kop == "list")
+							ok, _, _, _ := ke.Permits(ref.OpsNamed(kop)[0], map[string]interface{}{}, -1)
+							// a path the mount declares root-protected additionally needs sudo, for the
+							// per-key check exactly as for a request on that path
+							if ok && strings.Contains(kpath, "m/rootonly/") && ke.Caps&ref.Sudo == 0 {
+								ok = false
+							}
+							if ok {
 								wantKeys = append(wantKeys, key)
 							}
 						}
@@ -610,6 +624,21 @@ func TestVerifC03Core(t *testing.T) {
 						if next() {
 							d.run(tn.ns, []ref.Stanza{f, c}, nil, "")
 						}
+					}
+				}
+			}
+		}
+	}
+	// list filtering onto ROOT-PROTECTED paths: the listing of m/kv/ is filtered by what the
+	// token may do on m/rootonly/<key> (a path family the mount declares root-protected):
+	// a key is visible iff read / list is granted there WITH sudo
+	if only == "" || only == "root" {
+		for _, fc := range []uint16{ref.List | ref.Scan, ref.List | ref.Scan | ref.Sudo} {
+			f := ref.Stanza{Pat: "m/kv/*", Caps: fc, Filter: c03RootFilterPrefix + "{{ .key }}"}
+			for _, cp := range []string{"m/rootonly/*", "m/rootonly/x", "m/rootonly/+", "m/*"} {
+				for _, cc := range []uint16{ref.Read, ref.Read | ref.Sudo, ref.Read | ref.List | ref.Sudo, ref.Sudo, ref.Deny} {
+					if next() {
+						d.run("", []ref.Stanza{f, {Pat: cp, Caps: cc}}, &view{"", ""}, "")
 					}
 				}
 			}
